@@ -226,6 +226,7 @@ Section Replay.
     Theorem replay_equals_live groups seq expect d hs :
       Forall (rec_ok p) (concat groups) -> seq < 2 ^ 64 ->
       N.of_nat (length (concat groups)) < 2 ^ 32 -> lenN (enc_recs p (concat groups)) < 2 ^ 59 ->
+      seq + N.of_nat (length (concat groups)) <= keyMaxSeq p ->
       decode_to_mem p bhl mc mp (group_record (group_of p groups) seq) expect d hs =
       if seq <? expect then TmErr ESeq d hs
       else match putmem_group p mc mp (group_of p groups) seq d hs with
@@ -234,12 +235,13 @@ Section Replay.
            | PmFuel => TmFuel
            end.
     Proof.
-      intros Hok Hs Hn Hl.
+      intros Hok Hs Hn Hl Hr.
       assert (Hl' : lenN (enc_recs p (concat groups)) < 2 ^ 63).
       { change (2 ^ 59) with 576460752303423488 in Hl. change (2 ^ 63) with 9223372036854775808. lia. }
       unfold decode_to_mem, group_record. rewrite (group_len p), (group_data p).
       destruct (header_roundtrip bhl bhl12 seq (N.of_nat (length (concat groups))) (enc_recs p (concat groups)) Hs Hn) as [H1 H2].
       rewrite H1, H2. destruct (seq <? expect); [reflexivity|].
+      replace ((keyMaxSeq p <? seq) || (keyMaxSeq p - seq <? N.of_nat (length (concat groups)))) with false by lia.
       set (all := concat groups) in *.
       rewrite (decode_all p pok _ _ all _ Hok Hl').
       pose proof (tomem_fold p pok mc mp all [] [] seq (N.of_nat (length all)) 0%Z d hs 0%Z Hok) as F.
@@ -252,10 +254,23 @@ Section Replay.
       reflexivity.
     Qed.
 
+    (* an accepted record keeps its sequence numbers, and the db.seq recovery continues with, inside the range
+       of an internal key: first seq + count <= keyMaxSeq (so "batchSeq + uint64(batchLen)" never wraps) *)
+    Theorem decode_to_mem_range data expect d hs sq bl d' hs' :
+      decode_to_mem p bhl mc mp data expect d hs = TmOk sq bl d' hs' -> sq + bl <= keyMaxSeq p.
+    Proof.
+      unfold decode_to_mem. destruct (decode_header bhl data) as [e|[s b]]; [discriminate|].
+      destruct (s <? expect); [discriminate|].
+      destruct ((keyMaxSeq p <? s) || (keyMaxSeq p - s <? b)) eqn:E; [discriminate|].
+      destruct (decode_loop _ _ _ _ _ _ _) as [st|e st| |]; try discriminate.
+      destruct (tm_n st =? Z.of_N b)%Z; [|discriminate]. intros H. injection H as <- <- _ _. lia.
+    Qed.
+
     (* ... and the recovery step built on it: db.seq moves to first seq + count *)
     Corollary recover_step_group groups seq dbseq strict d hs :
       Forall (rec_ok p) (concat groups) -> seq < 2 ^ 64 -> dbseq <= seq ->
       N.of_nat (length (concat groups)) < 2 ^ 32 -> lenN (enc_recs p (concat groups)) < 2 ^ 59 ->
+      seq + N.of_nat (length (concat groups)) <= keyMaxSeq p ->
       recover_step p bhl mc mp strict (group_record (group_of p groups) seq) dbseq d hs =
       match putmem_group p mc mp (group_of p groups) seq d hs with
       | PmOk d' hs' => RsOk d' hs' (u64 (seq + N.of_nat (length (concat groups))))
@@ -263,7 +278,7 @@ Section Replay.
       | PmFuel => RsFuel
       end.
     Proof.
-      intros Hok Hs Hd Hn Hl. unfold recover_step. rewrite replay_equals_live by assumption.
+      intros Hok Hs Hd Hn Hl Hr. unfold recover_step. rewrite replay_equals_live by assumption.
       replace (seq <? dbseq) with false by lia.
       destruct (putmem_group p mc mp (group_of p groups) seq d hs); reflexivity.
     Qed.
@@ -273,10 +288,11 @@ Section Replay.
     Corollary write_then_recover groups dbseq strict d hs record d' hs' dbseq' :
       Forall (rec_ok p) (concat groups) -> dbseq + 1 < 2 ^ 64 ->
       N.of_nat (length (concat groups)) < 2 ^ 32 -> lenN (enc_recs p (concat groups)) < 2 ^ 59 ->
+      dbseq + 1 + N.of_nat (length (concat groups)) <= keyMaxSeq p ->
       write_group p mc mp dbseq (group_of p groups) d hs = WgOk record d' hs' dbseq' ->
       recover_step p bhl mc mp strict record dbseq d hs = RsOk d' hs' (u64 (dbseq' + 1)).
     Proof.
-      intros Hok Hs Hn Hl. unfold write_group. rewrite u64_small by exact Hs.
+      intros Hok Hs Hn Hl Hr. unfold write_group. rewrite u64_small by exact Hs.
       destruct (putmem_group p mc mp (group_of p groups) (dbseq + 1) d hs) as [d1 hs1| |] eqn:E; try discriminate.
       intros H. injection H as <- <- <- <-.
       rewrite recover_step_group by (try assumption; lia). rewrite E. f_equal.
